@@ -7,11 +7,19 @@
 pub struct Src<'a> {
     data: &'a [u8],
     pos: usize,
+    explicit: bool,
 }
 
 impl<'a> Src<'a> {
     pub fn new(data: &'a [u8]) -> Self {
-        Src { data, pos: 0 }
+        Src { data, pos: 0, explicit: false }
+    }
+    /// explicit-mode flag used by decoders that accept directly specified operands (enumerated sub-spaces)
+    pub fn set_explicit(&mut self, e: bool) {
+        self.explicit = e;
+    }
+    pub fn peek_explicit(&self) -> bool {
+        self.explicit
     }
     pub fn consumed(&self) -> usize {
         self.pos.min(self.data.len())
